@@ -88,7 +88,8 @@ def _kw(case):
               failures=o['failures'], errors=o['errors'], catch_first_error=o['catch_first_error'])
     if case.get('sel') is not None:
         # `submodels='ab'`: a string is a sequence of one-character ids ('a', then 'b')
-        kw['submodels'] = ''.join(case['sel']) if case.get('sel_str') else list(case['sel'])
+        as_str = case.get('sel_str') and case['sel'] and all(isinstance(x, str) and len(x) == 1 for x in case['sel'])
+        kw['submodels'] = ''.join(case['sel']) if as_str else list(case['sel'])
     return kw
 
 
